@@ -102,6 +102,9 @@ type Result struct {
 	Faults   map[string]int
 	Strategy string
 	Panic    interface{} // panic of the scheduler itself (tool error)
+	// Fatals: conditions that the Go runtime answers with an unrecoverable "fatal error" (the process dies);
+	// the simulator intercepts them before they happen, records them here and panics in the offending thread
+	Fatals []string
 }
 
 // Sim is one simulation.
@@ -125,6 +128,7 @@ type Sim struct {
 	faults   map[string]int
 	pools    map[*sync.Pool]*simPool
 	wpending map[*sync.RWMutex]int // writers parked in Lock: new readers queue behind them (Go's RWMutex semantics)
+	fatals   []string
 	fair     bool
 	overrun  bool
 	last     *Thread
@@ -190,6 +194,7 @@ func Run(t *testing.T, cfg Config, tape *Tape, main func(s *Sim)) (res *Result) 
 		res.Trace = s.trace
 		res.Pairs = s.pairs
 		res.Faults = s.faults
+		res.Fatals = s.fatals
 		res.Strategy = stratNames[s.strat]
 	}()
 	func() {
@@ -707,6 +712,40 @@ func L(site int32, mu interface{}, write bool) {
 		th.opSite = site
 		s.park(th)
 		th.ready = nil
+	}
+}
+
+// UL is placed before every Unlock/RUnlock. Unlocking a mutex that is not locked is a *fatal error* of the
+// Go runtime (no recover can catch it, the process dies); because exactly one thread runs, a successful
+// TryLock proves that nobody holds the mutex. The condition is recorded and turned into a panic of the
+// offending thread before the real Unlock is reached.
+func UL(site int32, mu interface{}, write bool) {
+	s := cur.Load()
+	if s == nil || s.poisoned.Load() {
+		return
+	}
+	free := false
+	switch m := mu.(type) {
+	case *sync.Mutex:
+		if m.TryLock() {
+			m.Unlock()
+			free = true
+		}
+	case *sync.RWMutex:
+		if m.TryLock() {
+			m.Unlock()
+			free = true
+		}
+	}
+	if free {
+		what := "sync: unlock of unlocked mutex"
+		if !write {
+			what = "sync: RUnlock of unlocked RWMutex"
+		}
+		msg := what + " at " + SiteName(site)
+		s.fatals = append(s.fatals, msg)
+		s.event(s.running.ID, "fatal", what)
+		panic("fatal error: " + msg)
 	}
 }
 
